@@ -66,7 +66,7 @@ def r1_emit_packing(ctx, cname):
     construct = cname + '.emit'
     w = where(f)
     for cls in CLASSES:
-        run = Run(f.node, oracle=data_oracle(cls), max_iter=1)
+        run = run_function(f, ctx.model, oracle=data_oracle(cls), max_iter=1)
         seen = set()
         for p in run.paths:
             if not p.normal:
@@ -264,11 +264,18 @@ def r9_msgpack(ctx):
         always = keys if always is None else always & keys
         sometimes |= keys
     req, opt = set(), set()
+    loc = [U(n.targets[0]) for n in walk_own(dec.node)
+           if isinstance(n, ast.Assign) and isinstance(n.value, ast.Call)
+           and U(n.value.func).endswith('loads')]
+    if not loc:
+        raise AnalysisError('MsgPackPacket.decode: the unpacked dict is not '
+                            'bound to a local')
+    dn = loc[0]
     for n in walk_own(dec.node):
-        if isinstance(n, ast.Subscript) and U(n.value) == 'decoded' and \
+        if isinstance(n, ast.Subscript) and U(n.value) == dn and \
                 isinstance(n.slice, ast.Constant):
             req.add(n.slice.value)
-        if isinstance(n, ast.Call) and U(n.func) == 'decoded.get' and \
+        if isinstance(n, ast.Call) and U(n.func) == dn + '.get' and \
                 isinstance(n.args[0], ast.Constant):
             opt.add(n.args[0].value)
     ctx.check(req <= (always or set()), 'MsgPackPacket.decode',
